@@ -9,6 +9,10 @@ NOTE = ('trusted: go/ssa lowering (x/tools v0.29.0), the symgo interpreter (vali
         'the reference model in the harness, z3 5.1.0; environment stubs and bounds are listed in the evidence file')
 
 CLAIMED = {
+    'C04': dict(text='dispatch from a boundary for all IE x IF (IME set, something pending) with every register/SP/PC/memory value: 5 cycles, vector by priority, pushed PC, only the served IF bit cleared, IME cleared; no-dispatch case for every opcode via the C01 harness; EI/DI/RETI timing over every program of 3 (quick) / 4 (thorough) instructions from the 8-instruction alphabet with arbitrary requests OR-ed into IF before every machine cycle, against a reference with a one-instruction EI delay',
+                ref='DESIGN.md §3 C04', note=NOTE + '; flat memory stub with FF0F/FFFF routed to the real interrupt controller; SP range assumption in the sequence harness'),
+    'C05': dict(text='HALT: inductive idle lemma (one cycle from every halted state with nothing pending changes nothing), wake-up for every IE x IF x IME (dispatch in 6 cycles with return address after HALT / plain wake without touching IF), HALT entry for every IME x pending, halt bug with every non-prefixed follower opcode (thorough) against the reference SM83',
+                ref='DESIGN.md §3 C05', note=NOTE + '; flat memory stub'),
     'C01': dict(text='each of the 245+256 opcodes run through the real dispatch tables, scheduler and helpers with all registers, flags, SP, PC, IE/IF/IME and the whole 64 KiB memory symbolic, compared with a bit-field-decoded reference SM83 on every register, flag, every memory byte (symbolic probe) and the halt/stop/IME state: width-complete per opcode (stronger than the exhaustive/random sampling the quantifier describes)',
                 ref='DESIGN.md §3 C01', note=NOTE + '; memory.Mapper replaced by a flat 64 KiB array stub for CPU-level checks (address decoding is C06/C07)'),
     'C02': dict(text='for every opcode the number of machine cycles between instruction boundaries, as a symbolic value merged over taken/not-taken paths, equals the documented count for all flag values and operands',
